@@ -283,7 +283,12 @@ def corruptions(m, spec, v, nspec, rng):
                 newk = knode[2]
             n2 = copy.deepcopy(node)
             i = rng.randint(0, len(n2[1]))
-            n2[1].insert(i, [knode, N.s_int(1)])
+            # (a value that is a block collection starts on the next line:
+            # the key's own line is what has to be cited)
+            n2[1].insert(i, [knode, rng.choice([
+                N.s_int(1), N.s_int(1), N.s_str('v'),
+                ['seq', [N.s_int(1), N.s_int(2)], S.TAG_SEQ],
+                ['map', [[N.s_str('zz'), N.s_int(1)]], S.TAG_MAP]])])
             # (a class that reads dashes as underscores may name the key in
             # the spelling it uses itself, as for dropped keys)
             yield 'added_key', D.set_at(nspec, p, n2), p + (('k', i),), \
